@@ -68,7 +68,7 @@ package jsonrpc2
 
 // Call registers its freshly allocated call object. Its id was drawn from the connection's atomic counter and the
 // object (and its ready channel) is not yet visible to any other goroutine: assumed (ownership is not machine-checked).
-//@ func (*Connection).Call$1 [C01]
+//@ func (*Connection).Call$1 [C01, C02, C03, C04, C05]
 //@   requires ac != nil && ac.ready != nil && !closed(ac.ready)
 //@   assume !(ac.id in s.outgoingCalls) && ac.ready != c.done
 //@   assume forall id ID :: {inDom(s.outgoingCalls, id)} id in s.outgoingCalls ==> rawGet(s.outgoingCalls, id).ready != ac.ready && rawGet(s.outgoingCalls, id) != ac
@@ -93,18 +93,18 @@ package jsonrpc2
 //@   loop 2: invariant @every-visited-request-was-cancelled s.incomingByID == old(s.incomingByID) && (forall id ID :: {inDom(s.incomingByID, id)} (id in $visited) ==> calls(cancelRequest) >= 1)
 
 // A failed write records the (non-nil) write error.
-//@ func (*Connection).write$2 [C05]
+//@ func (*Connection).write$2 [C01, C02, C03, C04, C05]
 //@   requires err != nil
 
 // Notify's deferred action gives back the slot this very call took in Notify$2 (attempted == true); that the slot is
 // still counted is an ownership fact about this goroutine's own increment: assumed, not machine-checked.
-//@ func (*Connection).Notify$1$1 [C05]
+//@ func (*Connection).Notify$1$1 [C01, C02, C03, C04, C05]
 //@   assume s.outgoingNotifications > 0
 
 // processResult's final action gives back the slot of the request it has just finished. That request is counted in
 // s.incoming and is no longer indexed (its own earlier action removed it; notifications never were): an ownership
 // fact about the goroutine that carries the request, assumed, not machine-checked.
-//@ func (*Connection).processResult$2 [C02]
+//@ func (*Connection).processResult$2 [C01, C02, C03, C04, C05]
 //@   assume s.incoming > 0 && len(s.incomingByID) < s.incoming
 //@   ensures @slot-given-back s.incoming == old(s.incoming) - 1
 
@@ -121,7 +121,7 @@ package jsonrpc2
 // original, which could then neither be cancelled by id nor be told apart from the duplicate's error answer (C04).
 //@   ensures @a-refused-duplicate-gives-up-the-id-it-collides-with old(req.ID.value != nil) && old(inDom(s.incomingByID, req.ID)) ==> req.ID.value == nil && err != nil
 //@   ensures @the-original-stays-indexed forall id ID :: {inDom(s.incomingByID, id)} old(id in s.incomingByID) ==> id in s.incomingByID && rawGet(s.incomingByID, id) == old(rawGet(s.incomingByID, id))
-//@ func (*Connection).acceptRequest$2 [C02]
+//@ func (*Connection).acceptRequest$2 [C01, C02, C03, C04, C05]
 //@   assume s.reading
 
 // ---------------------------------------------------------------------------------------------
@@ -138,7 +138,7 @@ package jsonrpc2
 
 // retire completes a call exactly once: it panics when the call is already complete, so every caller must know the
 // call is still open. (Used inline at call sites; this unit checks the body.)
-//@ func (*AsyncCall).retire [C01]
+//@ func (*AsyncCall).retire [C01, C02, C03, C04, C05]
 //@   inline
 //@   nopanic explicit
 //@   requires ac != nil && ac.ready != nil && !closed(ac.ready)
@@ -147,7 +147,7 @@ package jsonrpc2
 
 // Call: draws exactly one id from the counter (incrementing it by one), and completes or registers the call exactly
 // once: none of the retire calls it makes can hit an already completed call.
-//@ func (*Connection).Call [C01]
+//@ func (*Connection).Call [C01, C02, C03, C04, C05]
 //@   nopanic explicit
 //@   track sync/atomic.AddInt64 as nextID
 //@   modifies *
@@ -156,11 +156,11 @@ package jsonrpc2
 //@   ensures @returns-the-call result != nil
 
 // Notify: the slot taken in the pending-notification counter is given back on every path, and only if it was taken.
-//@ func (*Connection).Notify$2 [C05]
+//@ func (*Connection).Notify$2 [C01, C02, C03, C04, C05]
 //@   requires err == nil && !attempted
 //@   ensures @took-a-slot-iff-admitted attempted == (err == nil) && (attempted ==> s.outgoingNotifications == old(s.outgoingNotifications) + 1)
 //@        && (!attempted ==> s.outgoingNotifications == old(s.outgoingNotifications))
-//@ func (*Connection).Notify [C05]
+//@ func (*Connection).Notify [C01, C02, C03, C04, C05]
 //@   track Notify$2 as takeSlot
 //@   track Notify$1$1 as giveBack
 //@   snapshot afterTake after call Notify$2
@@ -184,7 +184,7 @@ package jsonrpc2
 // ---------------------------------------------------------------------------------------------
 // C03: the dispatcher starts one handler at a time and waits until it has returned or declared itself asynchronous
 // ---------------------------------------------------------------------------------------------
-//@ func (*Connection).handleAsync [C03]
+//@ func (*Connection).handleAsync [C01, C02, C03, C04, C05]
 //@   ghostvar inflight chan struct{} = nil
 //@   on call go:handleAsync$2: inflight = local(releaser).ch
 //@   modifies *
@@ -194,7 +194,7 @@ package jsonrpc2
 
 // The handler goroutine releases the dispatcher only after Handle has returned (deferred, soft), or earlier if the
 // handler itself called Async.
-//@ func (*Connection).handleAsync$2 [C03]
+//@ func (*Connection).handleAsync$2 [C01, C02, C03, C04, C05]
 //@   track c.handler.Handle as handle
 //@   track release as releaseDispatcher
 //@   track processResult as finish
@@ -205,7 +205,7 @@ package jsonrpc2
 //@   ensures @exactly-once calls(handle) == 1 && calls(releaseDispatcher) == 1 && calls(finish) == 1
 
 // release closes the channel exactly once; a second hard release (Async called twice) panics by design.
-//@ func (*releaser).release [C03]
+//@ func (*releaser).release [C01, C02, C03, C04, C05]
 // releasers are only created (non-nil, with an open channel) by handleAsync; r.released and the closing of r.ch change
 // together, only here, under r.mu (object invariant, assumed at entry)
 //@   assume r != nil && r.ch != nil && (r.released <==> closed(r.ch))
@@ -216,7 +216,7 @@ package jsonrpc2
 // ---------------------------------------------------------------------------------------------
 // C02: every accepted request is finished exactly once; calls get exactly one response echoing their id
 // ---------------------------------------------------------------------------------------------
-//@ func (*Connection).processResult [C02]
+//@ func (*Connection).processResult [C01, C02, C03, C04, C05]
 //@   track write as respond
 //@   track processResult$1 as unindex
 //@   track processResult$2 as releaseSlot
@@ -241,7 +241,7 @@ package jsonrpc2
 
 // Async releases the dispatcher early. The value stored under asyncKey is the non-nil releaser that handleAsync
 // put there (the only place the key is set): assumed.
-//@ func Async [C03]
+//@ func Async [C01, C02, C03, C04, C05]
 //@   track release as releaseDispatcher
 //@   modifies fields(releaser.released), chanState   // it releases the dispatcher and touches nothing else
 //@   assert at call release: @hard-release !$1
@@ -335,10 +335,10 @@ package jsonrpc2
 // C04 (receiver side): Cancel(id) cancels at most the one request indexed under id
 // ---------------------------------------------------------------------------------------------
 // The lookup action reads exactly the entry of this id (nil if the request is unknown or already answered).
-//@ func (*Connection).Cancel$1 [C04]
+//@ func (*Connection).Cancel$1 [C01, C02, C03, C04, C05]
 //@   ensures @looks-up-exactly-this-id req == s.incomingByID[id]
 // Cancel then calls the cancel function of that one request, or nothing.
-//@ func (*Connection).Cancel [C04]
+//@ func (*Connection).Cancel [C01, C02, C03, C04, C05]
 //@   nopanic
 //@   track req.cancel as cancelOne
 //@   callee req.cancel: modifies extern
